@@ -7,6 +7,7 @@ import (
 	"io"
 	"io/fs"
 	"os"
+	"path"
 	"sort"
 
 	scalibr "github.com/google/osv-scalibr"
@@ -85,14 +86,20 @@ func (k engineCombo) String() string {
 
 // runEngineCombo returns "" when the demands hold, otherwise (key suffix, description).
 func runEngineCombo(k engineCombo) (keySuffix, what, stack string) {
-	root := memfs.D("", memfs.D("m", memfs.F("good.txt", "good")))
+	// b/ and y/ hold healthy files of the FAILING extractor: whatever it returned for bad.dat, it must still
+	// be run on its other files, before and after the bad one (confinement is per file)
+	root := memfs.D("", memfs.D("m", memfs.F("good.txt", "good")), memfs.D("b", memfs.F("ok.dat", "ok")), memfs.D("y", memfs.F("ok.dat", "ok")))
 	for _, d := range k.badDirs {
 		root.Children = append(root.Children, memfs.D(d, memfs.F("bad.dat", "bad")))
 	}
 	sort.Slice(root.Children, func(a, b int) bool { return root.Children[a].Name < root.Children[b].Name })
-	failing := &scankit.Ex{N: "c02/failing", Req: scankit.ReqBase("bad.dat"),
+	failing := &scankit.Ex{N: "c02/failing", Req: scankit.ReqBase("bad.dat", "ok.dat"),
 		Out: func(e *scankit.Ex, in *filesystem.ScanInput, _ []byte, _ error) (inventory.Inventory, error) {
 			inv := inventory.Inventory{}
+			if path.Base(in.Path) == "ok.dat" {
+				inv.Packages = []*extractor.Package{{Name: "ok|" + in.Path, Version: "1", Locations: []string{in.Path}}}
+				return inv, nil
+			}
 			if k.c.withPkgs {
 				inv.Packages = []*extractor.Package{{Name: "partial|" + in.Path, Version: "1", Locations: []string{in.Path}}}
 			}
@@ -118,9 +125,13 @@ func runEngineCombo(k engineCombo) (keySuffix, what, stack string) {
 		return "scan-aborted", "Scan returned no result", ""
 	}
 	goodPkg := false
+	okPkgs := map[string]bool{}
 	for _, pk := range sr.Inventory.Packages {
 		if pk.Name == "c02/recording|m/good.txt" {
 			goodPkg = true
+		}
+		if pk.Name == "ok|b/ok.dat" || pk.Name == "ok|y/ok.dat" {
+			okPkgs[pk.Name] = true
 		}
 	}
 	status := map[string]*plugin.ScanStatus{}
@@ -131,6 +142,8 @@ func runEngineCombo(k engineCombo) (keySuffix, what, stack string) {
 	switch {
 	case !goodPkg || status["c02/recording"] == nil || status["c02/recording"].Status != plugin.ScanStatusSucceeded || status["c02/failing"] == nil:
 		return "scan-aborted", "the failure of one extractor on one file was not confined (the scan's context was alive): " + obs, ""
+	case len(okPkgs) != 2:
+		return "other-files-of-failing-extractor-skipped", fmt.Sprintf("the failing extractor's healthy files b/ok.dat and y/ok.dat were not both extracted (got %v): a failure on one file must not stop the extractor from being run on its other files: %s", keysOf(okPkgs), obs), ""
 	case k.c.err != nil && status["c02/failing"].Status != plugin.ScanStatusFailed && status["c02/failing"].Status != plugin.ScanStatusPartiallySucceeded:
 		return "failure-not-in-status", "the failing extractor is not reported FAILED / PARTIALLY_SUCCEEDED: " + obs, ""
 	case k.c.err == nil && status["c02/failing"].Status != plugin.ScanStatusSucceeded:
@@ -139,11 +152,89 @@ func runEngineCombo(k engineCombo) (keySuffix, what, stack string) {
 	return "", obs, ""
 }
 
+func keysOf(m map[string]bool) []string {
+	out := []string{}
+	for k := range m {
+		out = append(out, k)
+	}
+	sort.Strings(out)
+	return out
+}
+
 func stStr(s *plugin.ScanStatus) string {
 	if s == nil {
 		return "ABSENT"
 	}
 	return s.String()
+}
+
+// Real-extractor variant of the per-file demand: java/archive with MaxOpenedBytes turned down (tight-budget
+// instance), an over-budget jar (8 inner "jars" of a quarter budget each) and two healthy jars, one visited
+// before and one after it.
+var realJarOrders = [][]string{{"a"}, {"z"}, {"a", "z"}}
+
+func runRealJarCombo(overDirs []string) (keySuffix, what, stack string) {
+	healthy := string(packArchive(builtArchives["jar-min"]))
+	over := string(packArchive(builtArchives["jar-broken-inner-8"]))
+	root := memfs.D("", memfs.D("m", memfs.F("good.txt", "good")), memfs.D("b", memfs.F("h1.jar", healthy)), memfs.D("y", memfs.F("h2.jar", healthy)))
+	for _, d := range overDirs {
+		root.Children = append(root.Children, memfs.D(d, memfs.F("over.jar", over)))
+	}
+	sort.Slice(root.Children, func(a, b int) bool { return root.Children[a].Name < root.Children[b].Name })
+	jar := newExtractorVariant("java/archive", "tight-budget")
+	recording := &scankit.Ex{N: "c02/recording", Req: scankit.ReqBase("good.txt")}
+	var sr *scalibr.ScanResult
+	p, st := recoverBig(func() {
+		sr = scalibr.New().Scan(context.Background(), &scalibr.ScanConfig{
+			FilesystemExtractors: []filesystem.Extractor{jar, recording},
+			Capabilities:         &plugin.Capabilities{OS: plugin.OSLinux, Network: plugin.NetworkOffline},
+			ScanRoots:            []*scalibrfs.ScanRoot{{FS: safeFS{memfs.New(root)}, Path: ""}},
+		})
+	})
+	if p != nil {
+		return "scan-panic", fmt.Sprintf("Scan panicked: %v", p), trimStack(st)
+	}
+	if sr == nil || sr.Status == nil {
+		return "scan-aborted", "Scan returned no result", ""
+	}
+	from := map[string]bool{}
+	for _, pk := range sr.Inventory.Packages {
+		if len(pk.Locations) > 0 {
+			from[pk.Locations[0]] = true
+		}
+	}
+	status := map[string]*plugin.ScanStatus{}
+	for _, s := range sr.PluginStatus {
+		status[s.Name] = s.Status
+	}
+	obs := fmt.Sprintf("overall=%s, packages from %v, java/archive status=%s, recording status=%s", sr.Status, keysOf(from), stStr(status["java/archive"]), stStr(status["c02/recording"]))
+	switch {
+	case status["java/archive"] == nil || status["c02/recording"] == nil || !from["m/good.txt"]:
+		return "scan-aborted", "an over-budget jar was not confined: " + obs, ""
+	case !from["b/h1.jar"] || !from["y/h2.jar"]:
+		return "other-files-of-failing-extractor-skipped", "java/archive (MaxOpenedBytes=256 KiB) did not report the healthy jars b/h1.jar and y/h2.jar scanned next to an over-budget jar: " + obs, ""
+	case status["java/archive"].Status != plugin.ScanStatusFailed && status["java/archive"].Status != plugin.ScanStatusPartiallySucceeded:
+		// only judged when the over-budget jar really made Extract fail, which the direct call decides
+		if directJarFails(jar, over) {
+			return "failure-not-in-status", "java/archive failed on the over-budget jar but is not reported FAILED / PARTIALLY_SUCCEEDED: " + obs, ""
+		}
+	}
+	return "", obs, ""
+}
+
+func directJarFails(jar filesystem.Extractor, data string) bool {
+	m := safeFS{memfs.New(memfs.D("", memfs.F("x.jar", data)))}
+	f, err := m.Open("x.jar")
+	if err != nil {
+		return false
+	}
+	defer f.Close()
+	fi, _ := f.Stat()
+	var xerr error
+	recoverBig(func() {
+		_, xerr = newExtractorVariant("java/archive", "tight-budget").Extract(context.Background(), &filesystem.ScanInput{FS: m, Path: "x.jar", Info: fi, Reader: f})
+	})
+	return xerr != nil
 }
 
 // runEngineUnit runs every combination (or only u.Seq for a replay).
@@ -158,6 +249,17 @@ func runEngineUnit(u unit) error {
 		evals++
 		if suffix, what, stack := runEngineCombo(k); suffix != "" {
 			send(msg{T: "viol", Key: "engine:contain:" + suffix, Seq: i, Stack: stack, What: fmt.Sprintf("%s [%s]", what, k)})
+		}
+	}
+	for j, dirs := range realJarOrders {
+		i := len(combos) + j
+		if u.Data != nil && i != u.Seq {
+			continue
+		}
+		announce(i)
+		evals++
+		if suffix, what, stack := runRealJarCombo(dirs); suffix != "" {
+			send(msg{T: "viol", Key: "engine:contain:" + suffix, Seq: i, Stack: stack, What: fmt.Sprintf("%s [real java/archive, over-budget jar in %v, healthy jars in b/ and y/]", what, dirs)})
 		}
 	}
 	send(msg{T: "done", Evals: evals, Exerc: evals})
